@@ -205,7 +205,7 @@ def specHits (sc : Scope) (q : Option String) (c : String) : List ColInfo :=
   let rels : List Rel := match q with
     | some qn => sc.filter (fun (r : Rel) => r.qual == qn)
     | none => sc
-  rels.flatMap (fun (r : Rel) => r.cols.filter (·.name == c))
+  rels.flatMap (fun (r : Rel) => r.cols.filter (fun ci => ci.name == c && (q.isSome || !ci.merged)))
 
 theorem resolveCol_single (sc : Scope) (q : Option String) (c : String) :
     resolveCol [sc] q c = (match specHits sc q c with
@@ -216,14 +216,14 @@ theorem resolveCol_single (sc : Scope) (q : Option String) (c : String) :
   cases q with
   | none =>
     simp only
-    generalize (List.flatMap (fun (r : Rel) => r.cols.filter (·.name == c)) sc) = hits
+    generalize (List.flatMap (fun (r : Rel) => r.cols.filter (fun ci => ci.name == c && ((none : Option String).isSome || !ci.merged))) sc) = hits
     match hits with
     | [] => simp [resolveCol]
     | [h] => rfl
     | _ :: _ :: _ => rfl
   | some qn =>
     simp only
-    generalize (List.flatMap (fun (r : Rel) => r.cols.filter (·.name == c)) (sc.filter (fun (r : Rel) => r.qual == qn))) = hits
+    generalize (List.flatMap (fun (r : Rel) => r.cols.filter (fun ci => ci.name == c && ((some qn : Option String).isSome || !ci.merged))) (sc.filter (fun (r : Rel) => r.qual == qn))) = hits
     match hits with
     | [] => simp [resolveCol]
     | [h] => rfl
@@ -429,7 +429,9 @@ theorem compare_hits (names : List (Nat × String)) (num : Nat) (key : String) (
         exact (List.mem_filter.mp this).1
       have hn := filter_nodup_length e.cols key (hnd e hmem)
       simp only [List.filter_map, Function.comp_def, List.length_map]
-      rw [show (e.cols.filter (fun c => (catColInfo c).name == key)) = e.cols.filter (·.name == key) from rfl, hn]
+      have hfe : (e.cols.filter (fun x => (catColInfo x).name == key && ((none : Option String).isSome || !(catColInfo x).merged))) = e.cols.filter (·.name == key) := by
+        apply List.filter_congr; intro x _; simp [catColInfo]
+      rw [hfe, hn]
       cases hf : e.cols.find? (·.name == key) with
       | none => simp
       | some cc => simp; omega
@@ -522,7 +524,9 @@ theorem compare_hits_eq (key : String) (tm : List TypeMapEntry)
       have hmem : e ∈ tm := (List.mem_filter.mp (List.mem_of_getLast? he)).1
       have hf := filter_nodup_eq e.cols key (hnd e hmem)
       simp only [List.filter_map, Function.comp_def]
-      rw [show (e.cols.filter (fun c => (catColInfo c).name == key)) = e.cols.filter (·.name == key) from rfl, hf]
+      have hfe : (e.cols.filter (fun x => (catColInfo x).name == key && ((none : Option String).isSome || !(catColInfo x).merged))) = e.cols.filter (·.name == key) := by
+        apply List.filter_congr; intro x _; simp [catColInfo]
+      rw [hfe, hf]
       cases hfind : e.cols.find? (·.name == key) with
       | none => simp
       | some cc => simp
